@@ -15,12 +15,13 @@ RULE = ("Model-based histories on a host temp file of kind cassette or disk. Eac
         "files whose content is runs of $00/$FF (so that the bytes at the disk directory offset look like an empty "
         "directory). Model = list of files in insertion order. After every step: independent reader of the host bytes "
         "== model; the tool's typed re-open lists == model; an untyped re-open (as file_util.py does) recognises the "
-        "kind that was written. Non-trivial = >= 2 sessions with an add in between, or a cassette >= 161,280 bytes; "
+        "kind that was written. Disk histories that end nearly full attempt an addition that cannot fit on the re-opened "
+        "container and then list the stored files from that same object. Non-trivial = >= 2 sessions with an add in between, or a cassette >= 161,280 bytes; "
         "distinct by case hash.")
 ASSUMPTIONS = [
     "vlib/casref.py and vlib/dskref.py are the trusted readers",
     "zero-length files are not put on cassettes here (known finding F-C06-empty-file-ends-listing belongs to C06)",
-    "disk histories stop adding when the accounting model says the disk is full (C15 owns refusals)",
+    "whether an addition that cannot fit is refused is C15's business; here only the files already stored are watched after it",
 ]
 HEALTH = {"sessions>=2": 0.2, "kind:cas": 0.12, "kind:dsk": 0.12, "big_cassette": 4}
 EXHAUSTIVE = {}
@@ -45,7 +46,28 @@ _big = st.builds(
     st.sampled_from([2, 2, 3, 3, 0]), _cas_file)
 
 
+def _near_full(a, b, leave, over, kinds, tail):
+    """two large files, a third that leaves `leave` granules free, one that needs `over` more than are free (refused),
+    then one that still fits"""
+    from checks import c15
+    mid = 68 - a - b - leave
+    steps = [[dict(c15._sized(kinds[0], a, 0, 1), name="BIGA")], [dict(c15._sized(kinds[1], b, 0, 2), name="BIGB")],
+             [dict(c15._sized(kinds[2], mid, -1, 3), name="MID")], [dict(c15._sized(kinds[0], leave + over, 0, 4), name="TOOBIG")]]
+    if leave and tail:
+        steps.append([dict(c15._sized(kinds[1], min(leave, tail), 3, 5), name="LAST")])
+    return steps
+
+
+_kinds3 = st.lists(st.sampled_from(["ml", "basic", "ascii"]), min_size=3, max_size=3)
+_dsk_full = st.builds(lambda a, b, leave, over, kinds, tail, order: dict(kind="dsk", level="container", order=order,
+                                                                         steps=_near_full(a, b, leave, over, kinds, tail)),
+                      st.integers(20, 28), st.integers(20, 28), st.integers(0, 7), st.integers(1, 3), _kinds3, st.integers(0, 3),
+                      filegen.fill_order)
+
+
 def enumerated(tier, seed):
+    for leave in (0, 1, 2, 5, 7):
+        yield dict(kind="dsk", level="container", order=None, steps=_near_full(28, 28, leave, 1, ["ml", "basic", "ascii"], 1))
     # the smallest histories: one file, then one more, both kinds and levels
     for kind in ("cas", "dsk"):
         for level in ("virtualfile", "container"):
@@ -64,7 +86,8 @@ def enumerated(tier, seed):
 
 def searches(tier):
     q = tier == "quick"
-    return [("cassette", _cas, 250 if q else 20000), ("disk", _dsk, 120 if q else 8000), ("big_cassette", _big, 16 if q else 300)]
+    return [("cassette", _cas, 250 if q else 20000), ("disk", _dsk, 120 if q else 8000),
+            ("disk_near_full", _dsk_full, 60 if q else 4000), ("big_cassette", _big, 16 if q else 300)]
 
 
 def render(case):
@@ -109,13 +132,34 @@ def execute(case):
         path = os.path.join(tmp, "image." + kind)
         for sidx, step in enumerate(case["steps"]):
             new = []
+            toobig = []
             for f in step:
                 if kind == "dsk":
                     need = filegen.stream_len(f) // 2304 + 1
                     if need > free:
+                        toobig.append(f)
                         continue
                     free -= need
                 new.append((f, filegen.expand(f["data"])))
+            if toobig and kind == "dsk" and level == "container" and os.path.exists(path):
+                # an addition that cannot fit is attempted on a container re-opened from the stored bytes: whether it is
+                # refused is C15's business; here the files already stored must still list from that same object
+                labels.append("refused_add")
+                cont = DiskFile(buffer=list(open(path, "rb").read()), granule_fill_order=list(case["order"]) if case.get("order") else None)
+                for f in toobig:
+                    try:
+                        cont.add_file(filegen.to_coco(f, filegen.expand(f["data"])))
+                        break       # accepted although it cannot fit: judged by C15
+                    except Exception:
+                        pass
+                    try:
+                        mm = filegen.disk_listing_mismatch(cont.list_files(), [x for x, _ in model], [y for _, y in model])
+                    except Exception as err:
+                        mm = "listing raised {}: {}".format(type(err).__name__, err)
+                    if mm:
+                        return viol("session {}: after a refused addition ({} granules needed, {} free) the stored files no "
+                                    "longer list from the same object: {}".format(sidx, filegen.stream_len(f) // 2304 + 1, free, mm),
+                                    fid="C09:dsk:after-refused-add", labels=sorted(set(labels)))
             if not new:
                 continue
             try:
